@@ -307,6 +307,11 @@ func writeRecordConverters(w *formatting.IndentedWriter, t *dsl.RecordDefinition
 			w.Indented(func() {
 				fmt.Fprintf(w, "it->get_to(value.%s);\n", common.FieldIdentifierName(field.Name))
 			})
+			// a null optional field is omitted when written: do not keep what the destination held before
+			w.WriteStringln("} else {")
+			w.Indented(func() {
+				fmt.Fprintf(w, "value.%s = decltype(value.%s){};\n", common.FieldIdentifierName(field.Name), common.FieldIdentifierName(field.Name))
+			})
 			w.WriteStringln("}")
 		}
 	})
